@@ -589,6 +589,7 @@ func cliCases(r *mon.Run, w *world, origPath string) {
 	expectSeqOf["d-multi:-j x -j x"] = []string{sx, sx}
 	cases = append(multi, cases...)
 
+	severalPlugins(r, w, ageBin, work, path, home)
 	if !r.Thorough() && len(cases) > 107 {
 		cases = cases[:107]
 	}
